@@ -835,15 +835,23 @@ func oracleDecode(r *report, g *G, n int, single string, bounded bool) {
 func oracleAlloc(r *report, g *G) {
 	measure := func(f []byte, class string) {
 		var m0, m1 runtimeMem
-		// warm up (the first call of a kind pays for lazily initialised tables), then measure
+		// warm up (the first call of a kind pays for lazily initialised tables), then measure.
+		// Other goroutines of the process (timers, the collector) allocate too: the figure is
+		// the smallest of up to four measurements, so that only what the call itself needs counts.
 		readOnce(oneChunk(f))
-		readMem(&m0)
-		readOnce(oneChunk(f))
-		readMem(&m1)
 		rl, _ := splitFrame(f)
-		limit := uint64(64*(rl+len(f)) + 24<<10)
-		if d := m1.total - m0.total; d > limit {
-			r.fail("decode-alloc", "R 1 "+hexs(f), fmt.Sprintf("allocated %d bytes for a frame of %d (declared %d)", d, len(f), rl))
+		limit := uint64(64*(rl+len(f)) + 32<<10)
+		best := ^uint64(0)
+		for try := 0; try < 4 && best > limit; try++ {
+			readMem(&m0)
+			readOnce(oneChunk(f))
+			readMem(&m1)
+			if d := m1.total - m0.total; d < best {
+				best = d
+			}
+		}
+		if best > limit {
+			r.fail("decode-alloc", "R 1 "+hexs(f), fmt.Sprintf("allocated %d bytes for a frame of %d (declared %d)", best, len(f), rl))
 		}
 		r.eval(class, true, "alloc"+hexs(f))
 	}
@@ -3210,6 +3218,19 @@ func oracleC13(r *report, g *G, n int, single string) {
 				}
 			}
 		}
+		if k != 0 && g.chance(30) {
+			// the shared packet came from the wire (what a decoder leaves behind - a buffer, a
+			// callback - must not tie it to later decodes on other goroutines)
+			if o := readOnce(oneChunk(frameOf(q))); o.kind == k {
+				if o2 := readOnce(oneChunk(frameOf(q))); o2.kind == k {
+					p, q = o.p, o2.p
+					shared = nil
+					if c, ok := p.(*mq.Connect); ok {
+						shared = c.Will()
+					}
+				}
+			}
+		}
 		want := frameOf(q)
 		wantS, wantD, _ := renderBoth(q)
 		// frames read concurrently from private streams, with their sequential results
@@ -3222,6 +3243,13 @@ func oracleC13(r *report, g *G, n int, single string) {
 				body := g.bytesN(1 + g.pick(6))
 				f = append(append([]byte{byte(g.pick(16))}, vbEnc(uint64(len(body)))...), body...) // reserved type 0
 			}
+			frames = append(frames, f)
+			verdicts = append(verdicts, readOnce(oneChunk(f)).verdict())
+		}
+		// frames carrying a property their type has no field for (accepted and dropped)
+		sid := byte(1 + g.pick(100))
+		for _, f := range [][]byte{{0x40, 6, 0, 9, 0, 2, 0x0b, sid}, {0x20, 5, 0, 0, 2, 0x0b, sid}, {0xe0, 4, 0, 2, 0x0b, sid},
+			{0x90, 6, 0, 1, 2, 0x0b, sid, 0}, {0xf0, 4, 0, 2, 0x0b, sid}} {
 			frames = append(frames, f)
 			verdicts = append(verdicts, readOnce(oneChunk(f)).verdict())
 		}
